@@ -1105,3 +1105,70 @@ def block_printer_rule(m, rid):
             r.fail("%s|block-printer|%d" % (cname, len(kids)), "%s.tofortran prints %r for the children %r: a statement of the block is dropped, "
                    "repeated or out of order in the regenerated source" % (cname, got, want), m.class_loc(key))
     return r
+
+
+# ---------------------------------------------------------------------------------------------------------------
+# Fortran 2003 3.3.1: adjacent keywords whose separating blank is optional
+OPTIONAL_BLANK_PAIRS = [
+    ("Block_Data_Stmt", "block data bd", "blockdata bd"),
+    ("Intrinsic_Type_Spec", "double precision", "doubleprecision"),
+    ("Type_Declaration_Stmt", "double precision x", "doubleprecision x"),
+    ("Else_If_Stmt", "else if (a) then", "elseif (a) then"),
+    ("Elsewhere_Stmt", "else where", "elsewhere"),
+    ("Masked_Elsewhere_Stmt", "else where (m)", "elsewhere (m)"),
+    ("End_Associate_Stmt", "end associate", "endassociate"),
+    ("End_Block_Data_Stmt", "end block data bd", "endblockdata bd"),
+    ("End_Do_Stmt", "end do", "enddo"),
+    ("End_Enum_Stmt", "end enum", "endenum"),
+    ("Endfile_Stmt", "end file 10", "endfile 10"),
+    ("Endfile_Stmt", "end file (unit=10)", "endfile (unit=10)"),
+    ("End_Forall_Stmt", "end forall", "endforall"),
+    ("End_Function_Stmt", "end function f", "endfunction f"),
+    ("End_If_Stmt", "end if", "endif"),
+    ("End_Interface_Stmt", "end interface", "endinterface"),
+    ("End_Module_Stmt", "end module m", "endmodule m"),
+    ("End_Program_Stmt", "end program p", "endprogram p"),
+    ("End_Select_Stmt", "end select", "endselect"),
+    ("End_Select_Type_Stmt", "end select", "endselect"),
+    ("End_Subroutine_Stmt", "end subroutine s", "endsubroutine s"),
+    ("End_Type_Stmt", "end type t", "endtype t"),
+    ("End_Where_Stmt", "end where", "endwhere"),
+    ("Goto_Stmt", "go to 100", "goto 100"),
+    ("Computed_Goto_Stmt", "go to (10, 20), k", "goto (10, 20), k"),
+    ("Intent_Spec", "in out", "inout"),
+    ("Intent_Stmt", "intent(in out) :: a", "intent(inout) :: a"),
+    ("Intent_Attr_Spec", "intent(in out)", "intent(inout)"),
+    ("Select_Case_Stmt", "select case (k)", "selectcase (k)"),
+    ("Select_Type_Stmt", "select type (x)", "selecttype (x)"),
+]
+
+
+def optional_blank_rule(m, rid):
+    r = RuleResult(rid, "the adjacent keywords whose separating blank the standard makes optional (3.3.1: BLOCK DATA, DOUBLE PRECISION, ELSE IF, "
+                        "END FILE, GO TO, IN OUT, SELECT CASE ...) are accepted with and without the blank and give the same statement "
+                        "(%d pairs, matchers interpreted)" % len(OPTIONAL_BLANK_PAIRS))
+    r.floor = len(OPTIONAL_BLANK_PAIRS) - 2
+    world = World(m)
+    for cname, spaced, compact in OPTIONAL_BLANK_PAIRS:
+        key = world.classes.get(cname)
+        if key is None:
+            r.error("class %s vanished" % cname)
+            continue
+        r.instances += 1
+        outs = []
+        try:
+            for t in (spaced, compact):
+                try:
+                    outs.append(_once(world, key, t))
+                except PE.PyRaise as err:
+                    outs.append("raises %s" % err.exc_type)
+        except PE.Unsupported as err:
+            r.undet("%s|%s: %s" % (cname, spaced, err))
+            continue
+        ok = all(isinstance(o, str) and not o.startswith("raises ") for o in outs) and squeeze(outs[0]) == squeeze(outs[1])
+        r.ob(ok, "%s: %r / %r" % (cname, spaced, compact) if r.obligations % 6 == 0 else None)
+        if not ok:
+            which = spaced if not isinstance(outs[0], str) or outs[0].startswith("raises ") else compact
+            r.fail("%s|optional-blank|%s" % (cname, spaced), "%s: %r and %r are the same statement (the blank is optional), but they give %r and "
+                   "%r: the form %r is rejected or parsed differently" % (cname, spaced, compact, outs[0], outs[1], which), m.class_loc(key))
+    return r
